@@ -1,4 +1,5 @@
 import Abmarl.Props.C07
+import Abmarl.Props.Examples
 #print axioms Abmarl.C07_fair_turns_and_progress
 #print axioms Abmarl.C07_every_call_returns
 #print axioms Abmarl.C07_stub
@@ -8,3 +9,11 @@ import Abmarl.Props.C07
 #print axioms Abmarl.turnExpect_shape
 #print axioms Abmarl.c07_dynamic_reports
 #print axioms Abmarl.c07_progress
+#print axioms Abmarl.C07_examples
+#print axioms Abmarl.C07_examples_every_call_returns
+#print axioms Abmarl.C07_TeamBattle
+#print axioms Abmarl.C07_PredatorPrey
+#print axioms Abmarl.C07_MazeNavigation
+#print axioms Abmarl.C07_TrafficCorridor
+#print axioms Abmarl.C07_MultiMaze_partial
+#print axioms Abmarl.Ex.ex_WF
